@@ -13,6 +13,7 @@ import EG.Model.CheckedShapes
 import EG.Model.CheckedLine
 import EG.Model.CheckedData
 import EG.Driver.ScaleAdapter
+import EG.Driver.ScaleChk2
 namespace EG.Driver
 open EG
 
@@ -195,7 +196,7 @@ private def handleChk (kernel : String) (t : Toks) : Option String :=
     let al : TextM.Alignment :=
       if align == 0 then .left else if align == 1 then .center else .right
     some (orPanic fmtRect (Chk.TextM.boundingBox ⟨cw, ch, sp, bl⟩ lh b al pos nlines nchars))
-  | _ => none
+  | other => handleChk2 other t     -- triangles, rounded rectangles, sectors, scanlines, glyphs (Driver/ScaleChk2.lean)
 
 def handleScale (stream : String) (t : Toks) : Option String :=
   if stream.startsWith "scale.chk." then handleChk (stream.drop 10).toString t
